@@ -425,14 +425,22 @@ var c13UpdateCounts = []int{1, 2, 3, 8, 9, 17, 33, 65, 129, 257, 1025}
 
 func c13ManyUpdates(c *Ctx) {
 	n := c13UpdateCounts[c.Free("stop_time_updates", len(c13UpdateCounts))]
-	variant := c.Free("difference", 7)
+	variant := c.Free("difference", 9)
+	// stops identified by stop_sequence only (legal): then no string separates the numbers of
+	// consecutive updates
+	sequenceOnly := c.Free("stops_identified_by_sequence_only", 2) == 1
 	t := &gtfs.Trip{ID: gtfs.TripID{ID: "T", RouteID: "R"}}
 	for i := 0; i < n; i++ {
 		seq := uint32(i + 1)
 		stop := fmt.Sprintf("S%d", i)
 		at := time.Unix(int64(1700000000+60*i), 0).UTC()
+		dt := time.Unix(int64(1700000030+60*i), 0).UTC()
 		d := time.Duration(i) * time.Second
-		t.StopTimeUpdates = append(t.StopTimeUpdates, gtfs.StopTimeUpdate{StopSequence: &seq, StopID: &stop, Arrival: &gtfs.StopTimeEvent{Time: &at}, Departure: &gtfs.StopTimeEvent{Delay: &d}})
+		u := gtfs.StopTimeUpdate{StopSequence: &seq, StopID: &stop, Arrival: &gtfs.StopTimeEvent{Time: &at}, Departure: &gtfs.StopTimeEvent{Time: &dt, Delay: &d}}
+		if sequenceOnly {
+			u.StopID = nil
+		}
+		t.StopTimeUpdates = append(t.StopTimeUpdates, u)
 	}
 	last := &t.StopTimeUpdates[n-1]
 	mid := &t.StopTimeUpdates[n/2]
@@ -441,20 +449,34 @@ func c13ManyUpdates(c *Ctx) {
 		at := last.Arrival.Time.Add(time.Second)
 		last.Arrival = &gtfs.StopTimeEvent{Time: &at}
 	case 2:
-		s := *last.StopID + "x"
+		s := "x"
+		if last.StopID != nil {
+			s = *last.StopID + "x"
+		}
 		last.StopID = &s
 	case 3:
 		last.Departure = nil
 	case 4:
-		s := *mid.StopID + "x"
+		s := "x"
+		if mid.StopID != nil {
+			s = *mid.StopID + "x"
+		}
 		mid.StopID = &s
+	case 7: // a time moved by 256 s / by 65536 s: differs in one high byte only
+		dt := mid.Departure.Time.Add(256 * time.Second)
+		mid.Departure = &gtfs.StopTimeEvent{Time: &dt, Delay: mid.Departure.Delay}
+	case 8:
+		dt := last.Departure.Time.Add(65536 * time.Second)
+		last.Departure = &gtfs.StopTimeEvent{Time: &dt, Delay: last.Departure.Delay}
 	case 5:
 		t.StopTimeUpdates = t.StopTimeUpdates[:n-1]
 	case 6:
 		t.StopTimeUpdates[0], t.StopTimeUpdates[n-1] = t.StopTimeUpdates[n-1], t.StopTimeUpdates[0]
 	}
 	key := tripKey(t)
-	c.Input(hash64(key), true, func() string { return fmt.Sprintf("trip with %d stop time updates, difference %d", n, variant) })
+	c.Input(hash64(key), true, func() string {
+		return fmt.Sprintf("trip with %d stop time updates (by sequence only: %v), difference %d", n, sequenceOnly, variant)
+	})
 	var stream, again string
 	pan, where, text, stack := guard(func() { stream = tripStream(t); again = tripStream(cloneTrip(t, nil)) })
 	if pan {
@@ -469,6 +491,53 @@ func c13ManyUpdates(c *Ctx) {
 	c.Relate("trip:stream->data", stream, key)
 	c.Relate("trip:data->stream", key, stream)
 	c.Witness("trip_with_many_updates")
+}
+
+// c13HighBytes: trips of 17 / 33 / 65 updates; one time of one update (every index) is moved by
+// 2^8, 2^16 or 2^24 seconds, i.e. differs from the base in a single high-order byte: wherever a
+// number falls relative to any internal buffer boundary, all of its bytes must count.
+func c13HighBytes(c *Ctx) {
+	n := []int{17, 33, 65}[c.Free("stop_time_updates", 3)]
+	sequenceOnly := c.Free("stops_identified_by_sequence_only", 2) == 1
+	k := c.Free("update_index", n+1) - 1 // -1: the base trip
+	field := c.Free("field", 2)
+	delta := []int64{1 << 8, 1 << 16, 1 << 24}[c.Free("moved_by", 3)]
+	t := &gtfs.Trip{ID: gtfs.TripID{ID: "T", RouteID: "R"}}
+	for i := 0; i < n; i++ {
+		seq := uint32(i + 1)
+		stop := fmt.Sprintf("S%d", i)
+		at := time.Unix(int64(1700000000+60*i), 0).UTC()
+		dt := time.Unix(int64(1700000030+60*i), 0).UTC()
+		u := gtfs.StopTimeUpdate{StopSequence: &seq, StopID: &stop, Arrival: &gtfs.StopTimeEvent{Time: &at}, Departure: &gtfs.StopTimeEvent{Time: &dt}}
+		if sequenceOnly {
+			u.StopID = nil
+		}
+		if i == k {
+			if field == 0 {
+				v := at.Add(time.Duration(delta) * time.Second)
+				u.Arrival = &gtfs.StopTimeEvent{Time: &v}
+			} else {
+				v := dt.Add(time.Duration(delta) * time.Second)
+				u.Departure = &gtfs.StopTimeEvent{Time: &v}
+			}
+		}
+		t.StopTimeUpdates = append(t.StopTimeUpdates, u)
+	}
+	key := tripKey(t)
+	c.Input(hash64(key), k >= 0, func() string {
+		return fmt.Sprintf("trip with %d updates (by sequence only: %v), update %d field %d moved by %d s", n, sequenceOnly, k, field, delta)
+	})
+	var stream string
+	pan, where, text, stack := guard(func() { stream = tripStream(t) })
+	if pan {
+		c.Fail("panic:"+where+":"+text, "Trip.Hash panicked: %s\n%s", text, stack)
+		return
+	}
+	c.Steps(1)
+	c.Outcome(stream)
+	c.Relate("trip:stream->data", stream, key)
+	c.Relate("trip:data->stream", key, stream)
+	c.Witness("time_differs_in_one_high_byte")
 }
 
 func c13Vehicle(withTrip bool) Harness {
@@ -602,7 +671,7 @@ func init() {
 	register(&Check{
 		ID:    "C13",
 		Level: "model_checking",
-		Rule: "trips with 1..1025 stop time updates differing in one place (last update's time / stop / departure, a middle update, one update fewer, first and last swapped); all trips/vehicles within k deviations (quick k<=2, thorough k<=5 trips / k<=4 vehicles) of the bases {empty, full, mixed} x field alphabets (long twins of 33 / 257 / 4097 bytes differing in the last byte; adjacent strings over {'',a,ab,b, a NUL b, b NUL b, 'a,b', 0x01 a}, nil/zero/non-zero optionals, numeric twins that agree in their low 8/16/32 bits or as float32, 0-3 updates with index-dependent defaults); " +
+		Rule: "trips of 17 / 33 / 65 updates in which one arrival or departure time of one update (every index) is moved by 2^8, 2^16 or 2^24 s; trips with 1..1025 stop time updates differing in one place (last update's time / stop / departure, a middle update, one update fewer, first and last swapped, a time moved by 256 s or 65536 s; stops identified by id or by sequence only); all trips/vehicles within k deviations (quick k<=2, thorough k<=5 trips / k<=4 vehicles) of the bases {empty, full, mixed} x field alphabets (long twins of 33 / 257 / 4097 bytes differing in the last byte; adjacent strings over {'',a,ab,b, a NUL b, b NUL b, 'a,b', 0x01 a}, nil/zero/non-zero optionals, numeric twins that agree in their low 8/16/32 bits or as float32, 0-3 updates with index-dependent defaults); " +
 			"non-trivial = distinct data keys with an id or at least one update; oracle = global bijection hash-input-stream <-> data key plus per-value invariance under copy/zone/flag/back-reference",
 		Assumptions: []string{"the hash input is the concatenation of the byte slices written to the hash.Hash", "instants have whole-second resolution (as produced by the parser)"},
 		Scenarios: func(tier string) []*Scenario {
@@ -615,6 +684,7 @@ func init() {
 				{Name: "trip/full", Bound: k, Run: c13Trip("full")},
 				{Name: "trip/mixed", Bound: k, Run: c13Trip("mixed")},
 				{Name: "trip/many-updates", Bound: -1, Run: c13ManyUpdates},
+				{Name: "trip/high-bytes", Bound: -1, Run: c13HighBytes},
 				{Name: "vehicle/plain", Bound: kv, Run: c13Vehicle(false)},
 				{Name: "vehicle/with-trip", Bound: kv, Run: c13Vehicle(true)},
 			}
